@@ -69,6 +69,10 @@ def _mechanism(k, names):
             continue
         if n in inj or (s.choice is not None and any(c is s.choice and ("<choice %d>" % i) in inj for i, c in enumerate(k.unique_choices))):
             return "injected-default"
+    for n in names:
+        s = k.syms.get(n)
+        if s is None:
+            continue
         if s.choice is not None:
             return "choice-member"
         if s.rev_values or s.weak_rev_values:
@@ -123,8 +127,9 @@ def execute(sc, ctx):
             continue
         v2 = ops.values(n2.k)
         if v1 != v2:
-            d = [(n, v1[n], v2.get(n)) for n in v1 if v1[n] != v2.get(n)][:4]
-            ctx.violate(f"C10/values-differ/{_mechanism(k, [x[0] for x in d])}/{stratum}",
+            alld = [n for n in v1 if v1[n] != v2.get(n)]
+            d = [(n, v1[n], v2.get(n)) for n in alld][:4]
+            ctx.violate(f"C10/values-differ/{_mechanism(k, alld)}/{stratum}",
                         f"variant labels={key[0]} normalize_unset={key[1]}: values after loading the minimal config differ: {d}; file: {texts[key][:300]!r}")
     for norm in (False, True):
         if (False, norm) in texts and (True, norm) in texts:
